@@ -67,6 +67,8 @@ def validate(scs, log_path, wd, name="trace", prop=None, max_runs=None):
             kept = [e for e in recs if keep(e)]
             start = n + 1
             for e in kept:
+                if e.get("k") == "crash":
+                    e = dict(e, atk=str(e.get("at", "")).split("#")[0])
                 f.write(json.dumps(e) + "\n")
             n += len(kept)
             runs.append({"id": sid, "first": start, "last": n, "recorded": recs})
